@@ -344,6 +344,18 @@ fn read_name(reader: &mut NsReader<&[u8]>, tag: &BytesStart<'_>) -> Result<Name,
     Ok(Name::new(name))
 }
 
+/// Read the text content of a token-valued element (enumeration value, prefix, range), without
+/// the insignificant white space around it.
+fn read_token<'i>(
+    reader: &mut NsReader<&'i [u8]>,
+    tag: &BytesStart<'_>,
+) -> Result<Cow<'i, str>, ReadError> {
+    Ok(match reader.read_text(tag.to_end().name())? {
+        Cow::Borrowed(text) => Cow::Borrowed(text.trim()),
+        Cow::Owned(text) => Cow::Owned(text.trim().to_owned()),
+    })
+}
+
 trait BorrowedReadXml<'i>: Sized + 'i {
     fn borrowed_read_xml(
         reader: &mut NsReader<&'i [u8]>,
@@ -516,7 +528,7 @@ impl<'i> BorrowedReadXml<'i> for TermFrom<'i> {
                     if tag.local_name().as_ref() == b"family" && family.is_none() =>
                 {
                     tracing::trace!(?tag);
-                    family = Some(reader.read_text(tag.to_end().name())?);
+                    family = Some(read_token(reader, &tag)?);
                 }
                 (ResolveResult::Bound(XNM), Event::Start(tag))
                     if tag.local_name().as_ref() == b"route-filter" =>
@@ -562,14 +574,14 @@ impl<'i> BorrowedReadXml<'i> for RouteFilter<'i> {
                     if tag.local_name().as_ref() == b"address" && address.is_none() =>
                 {
                     tracing::trace!(?tag);
-                    address = Some(reader.read_text(tag.to_end().name())?);
+                    address = Some(read_token(reader, &tag)?);
                 }
                 (ResolveResult::Bound(XNM), Event::Start(tag))
                     if tag.local_name().as_ref() == b"choice-ident"
                         && prefix_length_range.is_none() =>
                 {
                     tracing::trace!(?tag);
-                    let ident = reader.read_text(tag.to_end().name())?;
+                    let ident = read_token(reader, &tag)?;
                     if ident.as_ref() != "prefix-length-range" {
                         return Err(ReadError::Other(
                             anyhow!("unexpected 'choice-ident' value '{ident}'").into(),
@@ -581,7 +593,7 @@ impl<'i> BorrowedReadXml<'i> for RouteFilter<'i> {
                                 if tag.local_name().as_ref() == b"choice-value" =>
                             {
                                 tracing::trace!(?tag);
-                                prefix_length_range = Some(reader.read_text(tag.to_end().name())?);
+                                prefix_length_range = Some(read_token(reader, &tag)?);
                                 break;
                             }
                             (_, Event::Comment(_)) => continue,
